@@ -186,7 +186,7 @@ pub fn c15(u: &mut Unstructured) -> Result<c15::Case> {
         let w = if u.int_in_range(0u8..=9)? == 0 { 0.0 } else { td_weight(u)? };
         data.push((x, w));
     }
-    Ok(c15::Case { scale, delta, backlog, data: c15::Data::Explicit(data), qs, xs_rel, scale_exp })
+    Ok(c15::Case { scale, delta, backlog, data: c15::Data::Explicit(data), qs, xs_rel, scale_exp, weight_exp: 0 })
 }
 
 pub fn c16(u: &mut Unstructured) -> Result<c16::Case> {
